@@ -5,7 +5,8 @@ Require Extraction.
 Require Import ExtrOcamlBasic.
 From RX Require Import Base.Prelude Base.InvList Model.Case Model.Op Model.Engine Model.Matcher
      Model.Compiler Model.Api Model.Run Spec.Repl
-     Spec.Syntax Spec.Parse Spec.CharSet Spec.Sem Spec.Api.
+     Spec.Syntax Spec.Parse Spec.CharSet Spec.Sem Spec.Api Spec.Classes.
 Extraction "model.ml" regex_new is_match replace_all run_tokenize run_analyze mem
   parse_repl render spec_compile spec_is_match spec_is_match_R spec_spans spec_nullable
-  has_backref bounds_ok strict_ok count_groups class_mem esc_mem lookup.
+  has_backref bounds_ok strict_ok count_groups class_mem esc_mem lookup weak_valid single_class_mem
+  k_nested_quant k_counted_zero_width k_group_backtrack.
